@@ -59,18 +59,22 @@ func (c *poolChain) StateAt(root, etxRoot common.Hash, size *big.Int) (*state.St
 func (c *poolChain) SubscribeChainHeadEvent(ch chan<- core.ChainHeadEvent) event.Subscription {
 	return c.feed.Subscribe(ch)
 }
-func (c *poolChain) IsGenesisHash(hs common.Hash) bool                             { return hs == c.gen }
-func (c *poolChain) CheckIfEtxIsEligible(common.Hash, common.Location) bool        { return true }
-func (c *poolChain) Engine(*types.WorkObjectHeader) consensus.Engine               { return nil }
-func (c *poolChain) GetHeaderOrCandidateByHash(hs common.Hash) *types.WorkObject   { return c.GetBlock(hs, 0) }
-func (c *poolChain) NodeCtx() int                                                  { return common.ZONE_CTX }
-func (c *poolChain) GetHeaderByHash(hs common.Hash) *types.WorkObject              { return c.GetBlock(hs, 0) }
-func (c *poolChain) GetBlockByHash(hs common.Hash) *types.WorkObject               { return c.GetBlock(hs, 0) }
-func (c *poolChain) GetMaxTxInWorkShare() uint64                                   { return 100 }
-func (c *poolChain) CheckInCalcOrderCache(common.Hash) (*big.Int, int, bool)       { return nil, 0, false }
-func (c *poolChain) AddToCalcOrderCache(common.Hash, int, *big.Int)                {}
-func (c *poolChain) CalcBaseFee(*types.WorkObject) *big.Int                        { return big.NewInt(1) }
-func (c *poolChain) CalcOrder(*types.WorkObject) (*big.Int, int, error)            { return big.NewInt(0), common.ZONE_CTX, nil }
+func (c *poolChain) IsGenesisHash(hs common.Hash) bool                      { return hs == c.gen }
+func (c *poolChain) CheckIfEtxIsEligible(common.Hash, common.Location) bool { return true }
+func (c *poolChain) Engine(*types.WorkObjectHeader) consensus.Engine        { return nil }
+func (c *poolChain) GetHeaderOrCandidateByHash(hs common.Hash) *types.WorkObject {
+	return c.GetBlock(hs, 0)
+}
+func (c *poolChain) NodeCtx() int                                            { return common.ZONE_CTX }
+func (c *poolChain) GetHeaderByHash(hs common.Hash) *types.WorkObject        { return c.GetBlock(hs, 0) }
+func (c *poolChain) GetBlockByHash(hs common.Hash) *types.WorkObject         { return c.GetBlock(hs, 0) }
+func (c *poolChain) GetMaxTxInWorkShare() uint64                             { return 100 }
+func (c *poolChain) CheckInCalcOrderCache(common.Hash) (*big.Int, int, bool) { return nil, 0, false }
+func (c *poolChain) AddToCalcOrderCache(common.Hash, int, *big.Int)          {}
+func (c *poolChain) CalcBaseFee(*types.WorkObject) *big.Int                  { return big.NewInt(1) }
+func (c *poolChain) CalcOrder(*types.WorkObject) (*big.Int, int, error) {
+	return big.NewInt(0), common.ZONE_CTX, nil
+}
 
 type p19Acct struct {
 	key     *ecdsa.PrivateKey
